@@ -67,17 +67,17 @@ def explain_dev(case, backend, i):
             return "pandas_cum_null_hole"
         if op in ("extend", "select_rows"):
             return "pandas_null_cmp_false"
-        if op == "join":
+        if op in ("join", "joinc"):
             return "pandas_null_keys_match"
     if backend in ("polars", "polars_lazy"):
         if op == "extend":
             return "polars_maxmin_ignore_null"
-        if op == "join":
+        if op in ("join", "joinc"):
             return "polars_full_join_right_key_lost"
     if backend in ("sqlite", "pg"):
         if op == "extend":
             return "sql_maxmin_swapped"
-        if op == "join" and backend == "sqlite":
+        if op in ("join", "joinc") and backend == "sqlite":
             return "sqlite_full_join_emulation"
     return "%s_%s" % (backend, op)
 
